@@ -22,5 +22,23 @@ PROPS = {
     },
 }
 
+MONITOR_NOTE = "No theorem about the parser model backs this property yet (the block/inline parser model is not in Lean at this commit): the property's statement is an executable Lean definition (lean/CM/Spec) evaluated by the Lean driver on every tree the real parser returns for the generated inputs. That is monitoring against a formal specification, not a proof; it is claimed as 'other'."
+
+def monitored(pid, spec, what):
+    return {
+        "modules": [],
+        "level": "other",
+        "design_ref": "DESIGN.md §6 " + pid,
+        "technique": "executable Lean specification (%s) evaluated on the implementation's trees over corpus + seeded generators + exhaustive small scope; shrinking; known-findings filter" % spec,
+        "text": what + " " + MONITOR_NOTE,
+        "note": "Trusts the Lean transcription of the property in lean/CM/Spec, the tree serialisation of the harness (public accessors + verif-tagged internals), and the generators' reach (distribution recorded in the evidence).",
+    }
+
+PROPS["C01"] = monitored("C01", "Spec.tiling", "Both entry points (Parse; NewBlockParser under whole-input, 1-byte and random-chunk readers) are run on every generated input and the returned offsets, line numbers and sources are checked by Spec.tiling (ordering, blank gaps, Source = input range with NUL replaced, 1-based StartLine counting LF/CR/CRLF, length equality without NUL); aliasing and non-mutation of the caller's buffer are checked in-process.")
+PROPS["C02"] = monitored("C02", "Spec.spansOK", "Every root of every generated input is checked by Spec.spansOK: spans valid and inside Source, children inside parents, siblings ordered and disjoint, root span ends at len(Source) and is preceded by spaces/tabs only, no boundary inside a multi-byte character for valid UTF-8.")
+PROPS["C03"] = monitored("C03", "Spec.coverage", "Every root of every generated input is checked by Spec.coverage: no byte under two leaves, every letter/digit/non-ASCII byte under exactly one leaf (inline leaves and list markers).")
+PROPS["C05"] = monitored("C05", "Spec.grammar", "Every root (in-memory and streaming+Extract+Rewrite) is checked by Spec.grammar: child kinds per node kind, marker-first list items, definition layout, link tails, no link in link, no unparsed node, heading levels, list/item agreement, ordered item numbers, reference links without destination/title.")
+PROPS["C13"] = monitored("C13", "Spec.shapes", "Every node's source slice is checked against the shape of its construct by Spec.shapes (emphasis, strong, code span, link, image, autolink, HTML tag, character reference, hard break, list marker, ATX, setext, fenced code, block quote).")
+
 NOT_APPLICABLE = {
 }
